@@ -258,3 +258,131 @@ func assumeField(fn *ssa.Function, assume map[ssa.Value]bool, key string, val bo
 	})
 	return assume
 }
+
+// rloop is a `for ... range slice` loop as lowered by go/ssa (rangeindex.loop).
+type rloop struct {
+	header *ssa.BasicBlock
+	body   *ssa.BasicBlock
+	over   ssa.Value // the slice whose len bounds the loop
+	blocks map[*ssa.BasicBlock]bool
+}
+
+// sliceRangeLoops finds index-based range loops: header ends in `if i < len(x)`.
+func sliceRangeLoops(fn *ssa.Function) []rloop {
+	lb := loopBlocks(fn)
+	var out []rloop
+	for _, b := range fn.Blocks {
+		iff, ok := lastIf(b)
+		if !ok {
+			continue
+		}
+		bo, ok := iff.Cond.(*ssa.BinOp)
+		if !ok || bo.Op != token.LSS {
+			continue
+		}
+		c, ok := bo.Y.(*ssa.Call)
+		if !ok {
+			continue
+		}
+		bi, ok := c.Call.Value.(*ssa.Builtin)
+		if !ok || bi.Name() != "len" || len(c.Call.Args) != 1 {
+			continue
+		}
+		body, isLoop := lb[b]
+		if !isLoop || len(b.Succs) != 2 {
+			continue
+		}
+		l := rloop{header: b, body: b.Succs[0], over: c.Call.Args[0], blocks: map[*ssa.BasicBlock]bool{}}
+		for _, x := range body {
+			l.blocks[x] = true
+		}
+		out = append(out, l)
+	}
+	return out
+}
+
+// iterationSkips: can one iteration of the loop (body entry -> back to the header) complete
+// without executing an instruction satisfying must? Paths leaving the loop are ignored.
+func (l rloop) iterationSkips(must func(ssa.Instruction) bool) bool {
+	seen := map[*ssa.BasicBlock]bool{}
+	st := []*ssa.BasicBlock{l.body}
+	for len(st) > 0 {
+		b := st[len(st)-1]
+		st = st[:len(st)-1]
+		if seen[b] {
+			continue
+		}
+		seen[b] = true
+		if b == l.header {
+			return true
+		}
+		if !l.blocks[b] {
+			continue
+		}
+		blocked := false
+		for _, i := range b.Instrs {
+			if must(i) {
+				blocked = true
+				break
+			}
+		}
+		if blocked {
+			continue
+		}
+		succs := b.Succs
+		if iff, ok := lastIf(b); ok && len(succs) == 2 {
+			if cb, isC := constBool(iff.Cond); isC {
+				if cb {
+					succs = succs[:1]
+				} else {
+					succs = succs[1:]
+				}
+			}
+		}
+		st = append(st, succs...)
+	}
+	return false
+}
+
+// iterationSkipsAssuming is iterationSkips with branch assumptions.
+func (l rloop) iterationSkipsAssuming(must func(ssa.Instruction) bool, assume map[ssa.Value]bool) bool {
+	seen := map[*ssa.BasicBlock]bool{}
+	st := []*ssa.BasicBlock{l.body}
+	for len(st) > 0 {
+		b := st[len(st)-1]
+		st = st[:len(st)-1]
+		if seen[b] {
+			continue
+		}
+		seen[b] = true
+		if b == l.header {
+			return true
+		}
+		if !l.blocks[b] {
+			continue
+		}
+		blocked := false
+		for _, i := range b.Instrs {
+			if must(i) {
+				blocked = true
+				break
+			}
+		}
+		if blocked {
+			continue
+		}
+		succs := b.Succs
+		if iff, ok := lastIf(b); ok && len(succs) == 2 {
+			f := normFact(iff.Cond, true)
+			if want, ok := assume[f.V]; ok {
+				if want == f.Val {
+					succs = succs[:1]
+				} else {
+					succs = succs[1:]
+				}
+			}
+		}
+		st = append(st, succs...)
+	}
+	return false
+}
